@@ -346,6 +346,12 @@ def remove_previous_run_locks(args):
         for mask in ["*_lock", "*_collected", "*_processed"]:
             for lock_file in glob.glob(os.path.join(glob.escape(sample.aux_dir), mask)):
                 os.remove(lock_file)
+    if args.reference:
+        # the same holds for the unpacked copy of a gzipped reference (see DatasetProcessor.__init__): --resume uses the one it finds
+        ref_name, outer_ext = os.path.splitext(os.path.basename(args.reference))
+        unpacked_reference = os.path.join(args.output, ref_name)
+        if outer_ext.lower() in ['.gz', '.gzip', '.bgz'] and os.path.isfile(unpacked_reference):
+            os.remove(unpacked_reference)
 
 
 def load_previous_run(args):
